@@ -1,39 +1,61 @@
 #!/usr/bin/env python3
-"""Applies every seeded change under seeded/<id>/patch.diff to /repo (one at a time, always
-reverted), runs the quick check of the property it targets (plus any listed in meta.json
-'also_run'), and prints / writes the detection table (seeded/RESULTS.md).
-usage: tools/run_seeded.py [id ...]"""
-import os, sys, json, subprocess, glob, time
+"""Applies every seeded change under seeded/<id>/patch.diff to a scratch worktree of /repo (one per worker, under /tmp,
+removed afterwards; /repo itself is never touched), runs the quick check of the property it targets (plus any listed in
+meta.json 'also_run') against that worktree (VERIF_REPO) with its own cache, evidence and replay directories, and
+prints / writes the detection table (seeded/RESULTS.md).
+usage: tools/run_seeded.py [-j N] [id ...]"""
+import os, sys, json, subprocess, glob, time, tempfile, shutil, concurrent.futures
 HERE = os.path.dirname(os.path.dirname(os.path.abspath(__file__)))
 def run(cmd, **kw): return subprocess.run(cmd, capture_output=True, text=True, **kw)
+
+def worker(args):
+    k, ids, root = args
+    wt = os.path.join(root, 'wt%d' % k); rows = []
+    run(['git', '-C', '/repo', 'worktree', 'add', '--detach', wt, 'HEAD'])
+    env = dict(os.environ, VERIF_REPO=wt, VERIF_CACHE_ROOT=os.path.join(root, 'cache%d' % k), VERIF_EVIDENCE_DIR=os.path.join(root, 'ev%d' % k),
+               VERIF_REPLAY_DIR=os.path.join(root, 'replays%d' % k), VERIF_JOBS=str(max(2, 16 // max(1, NJ))))
+    try:
+        for i in ids:
+            d = os.path.join(HERE, 'seeded', i); meta = json.load(open(os.path.join(d, 'meta.json')))
+            props = [meta['property']] + meta.get('also_run', [])
+            a = run(['git', '-C', wt, 'apply', os.path.join(d, 'patch.diff')])
+            if a.returncode != 0: rows.append((i, meta['property'], 'PATCH DOES NOT APPLY', '')); continue
+            try:
+                res = []
+                for p in props:
+                    r = run(['timeout', '3000', 'python3', os.path.join(HERE, 'check.py'), p, '--tier', 'quick'], cwd=HERE, env=env)
+                    viol = [l for l in r.stdout.split('\n') if l.startswith('VIOLATION')]
+                    kind = ''
+                    if viol:
+                        rp = viol[0].split('replay=')[1].split()[0]
+                        try:
+                            rj = json.load(open(rp)); kind = rj.get('kind') or rj.get('correspondence') or rj.get('record', '')
+                        except Exception: pass
+                        res.append('%s: REPORTED%s (%s)' % (p, ' [no-failing-input-found]' if 'no-failing-input-found' in viol[0] else '', kind[:90]))
+                    else: res.append('%s: quiet (rc=%d)' % (p, r.returncode))
+            finally:
+                run(['git', '-C', wt, 'checkout', '--', '.'])
+            rows.append((i, meta['property'], '; '.join(res), meta.get('needs', '')))
+            print(i, '|', '; '.join(res), flush=True)
+    finally:
+        run(['git', '-C', '/repo', 'worktree', 'remove', '--force', wt])
+    return rows
+
+NJ = 1
 def main():
-    ids = sys.argv[1:] or sorted(os.path.basename(os.path.dirname(p)) for p in glob.glob(os.path.join(HERE, 'seeded', '*', 'patch.diff')))
-    rows = []
-    for i in ids:
-        d = os.path.join(HERE, 'seeded', i); meta = json.load(open(os.path.join(d, 'meta.json')))
-        props = [meta['property']] + meta.get('also_run', [])
-        st = run(['git', '-C', '/repo', 'status', '--porcelain', '--untracked-files=no']).stdout.strip()
-        if st: print('refusing: /repo has local modifications'); return 2
-        a = run(['git', '-C', '/repo', 'apply', os.path.join(d, 'patch.diff')])
-        if a.returncode != 0: rows.append((i, meta['property'], 'PATCH DOES NOT APPLY', '')); continue
-        try:
-            res = []
-            for p in props:
-                t0 = time.time()
-                r = run(['timeout', '3000', 'python3', os.path.join(HERE, 'check.py'), p, '--tier', 'quick'], cwd=HERE, env=dict(os.environ, VERIF_EVIDENCE_DIR=os.path.join(HERE, '.cache', 'seeded-evidence')))
-                viol = [l for l in r.stdout.split('\n') if l.startswith('VIOLATION')]
-                kind = ''
-                if viol:
-                    rp = viol[0].split('replay=')[1].split()[0]
-                    try:
-                        rj = json.load(open(rp)); kind = rj.get('kind') or rj.get('correspondence') or rj.get('record', '')
-                    except Exception: pass
-                    res.append('%s: REPORTED%s (%s)' % (p, ' [no-failing-input-found]' if 'no-failing-input-found' in viol[0] else '', kind[:90]))
-                else: res.append('%s: quiet (rc=%d)' % (p, r.returncode))
-        finally:
-            run(['git', '-C', '/repo', 'checkout', '--', '.'])
-        rows.append((i, meta['property'], '; '.join(res), meta.get('needs', '')))
-        print(i, '|', '; '.join(res), flush=True)
+    global NJ
+    argv = sys.argv[1:]
+    if argv[:1] == ['-j']: NJ = int(argv[1]); argv = argv[2:]
+    ids = argv or sorted(os.path.basename(os.path.dirname(p)) for p in glob.glob(os.path.join(HERE, 'seeded', '*', 'patch.diff')))
+    root = tempfile.mkdtemp(prefix='seedw', dir='/tmp'); rows = []
+    try:
+        # same-property changes go to the same worker (they share most of a build only through the compiler cache anyway); round-robin by property
+        groups = [[] for _ in range(NJ)]
+        for n, i in enumerate(ids): groups[n % NJ].append(i)
+        with concurrent.futures.ThreadPoolExecutor(NJ) as ex:
+            for r in ex.map(worker, [(k, g, root) for k, g in enumerate(groups) if g]): rows += r
+    finally:
+        shutil.rmtree(root, ignore_errors=True); run(['git', '-C', '/repo', 'worktree', 'prune'])
     jp = os.path.join(HERE, 'seeded', 'RESULTS.json')
     allr = json.load(open(jp)) if os.path.exists(jp) else {}
     for r in rows: allr[r[0]] = dict(property=r[1], quick=r[2], needs=str(r[3]))
